@@ -224,7 +224,7 @@ def export_tables():
                  "    return '{}({}) {};'.format(q_name, q_args, q_regs)\nelse:\n    return '{} {};'.format(q_name, q_regs)")
     freal = [n for n in qasm.body if isinstance(n, ast.FunctionDef) and n.name == "_qasm_real"]
     if arg_test == "notNone" and last == new_print:
-        want = ["text = str(value)", "mantissa, exp, exponent = text.partition('e')",
+        want = ["text = '{}'.format(value)", "mantissa, exp, exponent = text.partition('e')",
                 "if exp and mantissa.lstrip('-').isdigit():\n    text = mantissa + '.0e' + exponent", "return text"]
         if len(freal) != 1 or [ast.unparse(x) for x in freal[0].body[1:]] != want:
             raise TranslatorError("_qasm_real: body not recognised")
